@@ -21,6 +21,7 @@
  */
 #include "common.h"
 #include <unistd.h>
+#include <errno.h>
 #include "src/kdumpfile/open.c"
 #include <fcntl.h>
 
@@ -132,6 +133,7 @@ int main(int argc, char **argv)
 			kdump_clear_err(ctx); addrxlat_ctx_clear_err(ctx->xlatctx);
 			if (old[0]) kdump_err(ctx, KDUMP_ERR_CORRUPT, "%s", old);
 			addrxlat_ctx_err(ctx->xlatctx, (addrxlat_status)s, "%s", text);
+			errno = ENOMEM;	/* a system-class status on an empty chain gets strerror(errno) innermost */
 			k = addrxlat2kdump(ctx, (addrxlat_status)s);
 			printf("%x ", (unsigned)k);
 			e = kdump_get_err(ctx);
